@@ -259,6 +259,7 @@ class FakeStream(object):
     self.chunks = []      # (bytes, frames)
     self.closed = 0
     self.log = []
+    self.rpos = 0
     pa._streams.add(self)
 
   def stop_stream(self):
@@ -278,6 +279,15 @@ class FakeStream(object):
   def write(self, chunk, frames):
     self.chunks.append((bytes(chunk), frames))
     S.point("backend.write")
+
+  def read(self, frames):
+    """Input device: an endless ramp of float32-exact values, one scheduling point per read."""
+    import struct
+    vals = [((self.rpos + i) % 64) / 8. for i in range(frames)]
+    self.rpos += frames
+    self.log.append("read")
+    S.point("backend.read")
+    return struct.pack("%df" % frames, *vals)
 
 
 class FakePyAudio(object):
